@@ -85,6 +85,16 @@ func (t *formatFMP4Track) write(sample *formatFMP4Sample) error {
 
 	sample.Duration = uint32(duration)
 
+	// check the pending sample too, since it can be used as starting position of a segment
+	// by any track before it gets written.
+	if t.startInitialized {
+		nextDTS := timestampToDuration(t.nextSample.dts, int(t.initTrack.TimeScale))
+		drift := t.nextSample.ntp.Sub(t.startNTP) - (nextDTS - t.startDTS)
+		if drift < -ntpDriftTolerance || drift > ntpDriftTolerance {
+			return fmt.Errorf("detected drift between recording duration and absolute time, resetting")
+		}
+	}
+
 	dts := timestampToDuration(sample.dts, int(t.initTrack.TimeScale))
 
 	if !t.startInitialized {
